@@ -17,14 +17,41 @@ def exJ : Except Str Str → Json
 
 def rowJ (key : Str) (vals : List Json) : Json := arr [strToJson key, arr vals]
 
+/-- the BibTeX engine on `file` with the citations `cits`: one row per emitted entry -/
+def bstRows (file : List (Str × Entry)) (names cits : List Str) (m : Int) : Json × Json :=
+  match BibData.readFile (some cits) (file.map fun p => (p.1, p.2.personsAsFields)) with
+  | none => (Json.str "KeyError", Json.str "KeyError")
+  | some (db, rep0) =>
+    let a := db.addExtraCitations cits m
+    let b := db.removeMissing a.1
+    (arr (b.1.map fun c => match db.entries.getItem c with
+        | none => Json.str "KeyError"
+        | some e => rowJ c (names.map (fun n => bstJ (bstFieldValue db e n)) ++ [bstJ (bstCrossrefValue db e)])),
+     reportsJ (rep0 ++ a.2 ++ b.2))
+
+/-- the Python engine (template node `field`) on `file` with the citations `cits` -/
+def pyRows (file : List (Str × Entry)) (names cits : List Str) (m : Int) : Json × Json :=
+  match BibData.readFile (some cits) file with
+  | none => (Json.str "KeyError", Json.str "KeyError")
+  | some (db, rep0) =>
+    let a := db.addExtraCitations cits m
+    let b := db.removeMissingPy a.1
+    match db.lookupAll b.1 with
+    | none => (Json.str "KeyError", Json.str "KeyError")
+    | some es => (arr (es.map fun e => rowJ e.key (names.map fun n => exJ (pythonEngineField db e n))),
+                  reportsJ (rep0 ++ a.2 ++ b.2))
+
 /-- `findfield`: database graph + queried names → what each observation point yields for every
 (entry, name): the entry API with and without `bib_data`, the BST field variables, the template
-`field` node of the Python engine (model), and the reference lookup (spec). -/
+`field` node of the Python engine (model), and the reference lookup (spec).  The engines are
+observed with every entry cited and — `leaf*` — with ONLY the first entry cited
+(`min_crossrefs` 2: its parent is read but not appended; 1: appended). -/
 def findfield (j : Json) : Except String Json := do
   let raw ← parseFile j
   let names ← getStrList j "names"
   let file := toModelFile raw
   let cits := raw.map (·.key)
+  let leaf := (raw.take 1).map (·.key)
   let sdb := Spec.readAll (toSpecFile raw)
   let api : Json := match BibData.readFile none file with
     | none => Json.str "KeyError"
@@ -38,41 +65,42 @@ def findfield (j : Json) : Except String Json := do
       match CIDict.items db.entries with
       | none => Json.str "KeyError"
       | some its => arr (its.map fun p => rowJ p.2.key (names.map fun n => optStr (p.2.findField n none)))
-  let bstRead := BibData.readFile (some cits) (file.map fun p => (p.1, p.2.personsAsFields))
-  let bst : Json := match bstRead with
-    | none => Json.str "KeyError"
-    | some (db, _) =>
-      let a := db.addExtraCitations cits 2
-      let b := db.removeMissing a.1
-      arr (b.1.map fun c => match db.entries.getItem c with
-        | none => Json.str "KeyError"
-        | some e => rowJ c (names.map (fun n => bstJ (bstFieldValue db e n)) ++ [bstJ (bstCrossrefValue db e)]))
-  let bstReports : Json := match bstRead with
-    | none => Json.str "KeyError"
-    | some (db, rep0) =>
-      let a := db.addExtraCitations cits 2
-      reportsJ (rep0 ++ a.2 ++ (db.removeMissing a.1).2)
-  let pyRead := BibData.readFile (some cits) file
-  let py : Json := match pyRead with
-    | none => Json.str "KeyError"
-    | some (db, _) =>
-      let a := db.addExtraCitations cits 2
-      let b := db.removeMissingPy a.1
-      match db.lookupAll b.1 with
-      | none => Json.str "KeyError"
-      | some es => arr (es.map fun e => rowJ e.key (names.map fun n => exJ (pythonEngineField db e n)))
-  let pyReports : Json := match pyRead with
-    | none => Json.str "KeyError"
-    | some (db, rep0) =>
-      let a := db.addExtraCitations cits 2
-      reportsJ (rep0 ++ a.2 ++ (db.removeMissingPy a.1).2)
+  let bst := bstRows file names cits 2
+  let py := pyRows file names cits 2
   let spec : Json := arr (sdb.map fun e => rowJ e.key (names.map fun n => optStr (Spec.lookup sdb e n)))
   let specOwn : Json := arr (sdb.map fun e => rowJ e.key (names.map fun n => optStr (e.own n)))
   let specParent : Json := arr (sdb.map fun e => rowJ e.key [optStr ((Spec.parent sdb e).map (·.key))])
   let specDangling : Json := arr ((Spec.dangling sdb (Spec.keys sdb)).map fun p => arr [strToJson p.1, strToJson p.2])
-  pure (obj [("out", obj [("api", api), ("api_nodb", apiNoDb), ("bst", bst), ("bst_reports", bstReports),
-                          ("py", py), ("py_reports", pyReports)]),
+  pure (obj [("out", obj [("api", api), ("api_nodb", apiNoDb), ("bst", bst.1), ("bst_reports", bst.2),
+                          ("py", py.1), ("py_reports", py.2),
+                          ("bst_leaf", (bstRows file names leaf 2).1), ("py_leaf", (pyRows file names leaf 2).1),
+                          ("bst_leaf1", (bstRows file names leaf 1).1), ("py_leaf1", (pyRows file names leaf 1).1)]),
              ("spec", obj [("lookup", spec), ("own", specOwn), ("parent", specParent), ("dangling", specDangling)])])
+
+/-- `findchain`: a long file (hundreds of entries), looked at from its FIRST entry only: the
+entry API, the two engines with only that entry cited, the number of cross-references the lookup
+follows (model), and the reference lookup (spec). -/
+def findchain (j : Json) : Except String Json := do
+  let raw ← parseFile j
+  let names ← getStrList j "names"
+  let file := toModelFile raw
+  let leaf := (raw.take 1).map (·.key)
+  let sdb := Spec.readAll (toSpecFile raw)
+  let first (f : BibData → Entry → Json) : Json := match BibData.readFile none file with
+    | none => Json.str "KeyError"
+    | some (db, _) =>
+      match leaf with
+      | [] => Json.null
+      | k :: _ => match db.entries.getItem k with
+        | none => Json.null
+        | some e => f db e
+  let api := first fun db e => arr (names.map fun n => optStr (e.findField n (some db)))
+  let hops := first fun db e => arr (names.map fun n => nat (findFieldHops (some db) [] e n).2)
+  let spec : Json := match sdb with
+    | [] => Json.null
+    | e :: _ => arr (names.map fun n => optStr (Spec.lookup sdb e n))
+  pure (obj [("out", obj [("api", api), ("bst_leaf", (bstRows file names leaf 2).1), ("py_leaf", (pyRows file names leaf 2).1)]),
+             ("spec", obj [("lookup", spec), ("hops", hops), ("entries", nat sdb.length)])])
 
 /-- `findfield_api`: the entry API only, on a database built with `add_entry` from `Entry` objects
 (no `.bib` text in between, so an entry may have a field and a role of the same name). -/
@@ -93,8 +121,35 @@ def findfieldApi (j : Json) : Except String Json := do
   pure (obj [("out", obj [("api", rows true), ("api_nodb", rows false)]),
              ("spec", obj [("lookup", spec), ("own", specOwn)])])
 
+def exNamesJ : Except Str (List Str) → Json
+  | .ok ps => strToJson (joinWith andSep ps)
+  | .error _ => Json.null
+
+/-- `pystyles`: what the nodes of the Python engine's templates yield for every entry of the
+database — `names(role)` for the `roles`, `field(name)` for the `names` — and what the label and
+sorting styles read (model); the reference lookup of all of them (spec). -/
+def pystyles (j : Json) : Except String Json := do
+  let raw ← parseFile j
+  let names ← getStrList j "names"
+  let roles ← getStrList j "roles"
+  let file := toModelFile raw
+  let sdb := Spec.readAll (toSpecFile raw)
+  let nodes : Json := match BibData.readFile none file with
+    | none => Json.str "KeyError"
+    | some (db, _) =>
+      match CIDict.items db.entries with
+      | none => Json.str "KeyError"
+      | some its => arr (its.map fun p => arr [strToJson p.2.key,
+          arr (roles.map fun r => exNamesJ (pythonEngineNames db p.2 r)),
+          arr (names.map fun n => exJ (pythonEngineField db p.2 n)),
+          arr (names.map fun n => optStr (styleReadsField p.2 n))])
+  let spec : Json := arr (sdb.map fun e => arr [strToJson e.key,
+      arr (roles.map fun r => optStr (Spec.lookup sdb e r)),
+      arr (names.map fun n => optStr (Spec.lookup sdb e n))])
+  pure (obj [("out", obj [("nodes", nodes)]), ("spec", obj [("lookup", spec)])])
+
 /-- driver ops of this property: (op name, handler) -/
 def handlers : List (String × (Json → Except String Json)) :=
-  [("findfield", findfield), ("findfield_api", findfieldApi)]
+  [("findfield", findfield), ("findfield_api", findfieldApi), ("findchain", findchain), ("pystyles", pystyles)]
 
 end Pybtex.Drv.C14
